@@ -54,6 +54,61 @@ def main():
         if findings:
             break
     if not findings:
+        # the autosave file moved / renamed / given as str before resuming: the continued run advertises and finally
+        # removes the file it was resumed FROM, and a later autosave goes next to it -- not to the path recorded in the
+        # snapshot by the crashed process
+        import shutil
+        for how in ("moved to another directory", "renamed", "moved, old directory deleted, one more autosave due"):
+            os.makedirs("run_dir", exist_ok=True)
+            cwd = os.getcwd()
+            os.chdir("run_dir")
+            impl, sd, cfg = N.make_impl(True, autosave_dt=11)
+            impl.init()
+            impl.progress()
+            impl.last_save_time = -1e18
+            impl.save_simulation()
+            old = str(impl.autosave_file)
+            os.chdir(cwd)
+            old = old if os.path.isabs(old) else os.path.join(cwd, "run_dir", old)
+            if how == "renamed":
+                new = os.path.join(os.path.dirname(old), "checkpoint_kept_by_the_user.dat")
+            else:
+                os.makedirs("elsewhere", exist_ok=True)
+                new = os.path.join(cwd, "elsewhere", os.path.basename(old))
+            shutil.move(old, new)
+            if how.startswith("moved, old"):
+                shutil.rmtree(os.path.join(cwd, "run_dir"))
+                import emu_mps.mps_backend_impl as _M
+                orig_progress = _M.MPSBackendImpl.progress
+                state = {"n": 0}
+
+                def progress(self, _o=orig_progress, _s=state):
+                    _s["n"] += 1
+                    if _s["n"] == 2:
+                        self.last_save_time = -1e18          # an autosave is due during the resumed run
+                    return _o(self)
+                _M.MPSBackendImpl.progress = progress
+            try:
+                resumed = MPSBackend.resume(new)
+                a = torch.as_tensor(resumed.occupation[-1])
+                _, sd0, cfg0 = N.make_impl(True)
+                b = torch.as_tensor(MPSBackend._run_from_sequence_data(sd0, cfg0).occupation[-1])
+                if not torch.allclose(a, b, atol=1e-9):
+                    findings.append(f"autosave file {how}: resumed results differ from the uninterrupted run")
+                left = [os.path.join(r, f) for r, _, fs in os.walk(cwd) for f in fs if f.endswith((".dat", ".new", ".bak"))]
+                if left:
+                    findings.append(f"autosave file {how} before resume(): after the resumed run completed these files are "
+                                    f"left: {[os.path.relpath(x, cwd) for x in left]}")
+            except Exception as e:          # noqa: BLE001
+                findings.append(f"autosave file {how} before resume(): the resumed run raised {type(e).__name__}: {str(e)[:200]}")
+            finally:
+                if how.startswith("moved, old"):
+                    _M.MPSBackendImpl.progress = orig_progress
+            for d in ("run_dir", "elsewhere"):
+                shutil.rmtree(os.path.join(cwd, d), ignore_errors=True)
+            if findings:
+                break
+    if not findings:
         # noisy runs: resume from autosaves taken at the points a crash can leave behind (separate process:
         # it monkeypatches the implementation classes)
         import subprocess
